@@ -13,20 +13,20 @@ def put(path, content):
     except OSError: pass
     os.makedirs(os.path.dirname(path), exist_ok=True); open(path, 'w').write(content)
 
-def build_decls(res, decls, tag, target_dir=None):
+def build_decls(res, decls, tag, target_dir=None, quiet=False):
     crate = os.path.join(WORK, tag)
     # a package name of its own per crate: cargo mixes up the freshness of equally named packages that share a target directory
     pkg = re.sub(r'[^a-z0-9_]', '_', tag.lower())
     put(os.path.join(crate, 'Cargo.toml'), open(os.path.join(V, 'harness', 'dc', 'Cargo.toml')).read().replace('name = "dc"', f'name = "{pkg}"'))
     put(os.path.join(crate, 'src', 'support.rs'), D.SUPPORT)
     put(os.path.join(crate, 'src', 'main.rs'), D.crate_source(decls))
-    return cargo_build(res, crate, pkg, target_dir=target_dir)
+    return cargo_build(res, crate, pkg, target_dir=target_dir, quiet=quiet)
 
 def find_bad_decl(res, decls, tag='dc_bisect'):
     """bisect for one declaration that does not compile on its own"""
     def builds(ds):
         tmp = Result(PROP, res.tier, res.seed)
-        ok = build_decls(tmp, ds, tag) is not None
+        ok = build_decls(tmp, ds, tag, quiet=True) is not None
         return ok, (tmp.broken[0][2] if tmp.broken else '')
     cur = list(decls); ok, err = builds(cur)
     if ok: return None
@@ -99,7 +99,7 @@ def main():
     ntypes = parser_tie(res, a.seed, 400 if a.tier == 'quick' else 4000, dist) or 0
     # declarations: compile + round trip + frame
     rng = random.Random(a.seed + 1)
-    nd = 70 if a.tier == 'quick' else 600
+    nd = 108 if a.tier == 'quick' else 720
     decls = [D.gen_enum(rng, i) if rng.random() < 0.15 else D.gen_struct(rng, i) for i in range(nd)]
     for _, _, fs in decls:
         for f in fs: dist['decl_' + f] = dist.get('decl_' + f, 0) + 1
@@ -128,7 +128,7 @@ def main():
         kid, (desc, src) = item
         tmp = Result(PROP, a.tier, a.seed)
         test = "pub fn test() -> Result<(), String> { Ok(()) }\n"
-        exe = build_decls(tmp, [(kid, src + test, [])], f'dc_known_{kid}', target_dir=os.path.join(WORK, 'target_known'))
+        exe = build_decls(tmp, [(kid, src + test, [])], f'dc_known_{kid}', target_dir=os.path.join(WORK, 'target_known'), quiet=True)
         return kid, desc, src, exe is not None, (tmp.broken[0][2] if tmp.broken else '')
     known_results = list(map(try_known, D.KNOWN_BAD.items()))
     for kid, desc, src, ok, err in known_results:
